@@ -266,7 +266,9 @@ func (w *world) apply(ev string) {
 			w.bad = append(w.bad, "call-not-attempted-on-any-endpoint\nevent "+ev)
 			return
 		}
-		if w.inact[i] {
+		// (the one probe call of a candidate that was queued before the registry took the endpoint off its list is
+		// not routing: no property speaks about it)
+		if w.inact[i] && !(pqBefore > 0 && i < len(before) && before[i].HasAdapter && !before[i].Status) {
 			w.bad = append(w.bad, fmt.Sprintf("call-routed-to-an-endpoint-the-registry-lists-as-inactive\nep%d", i))
 		}
 		// expected outcome from the server's mode
@@ -306,7 +308,12 @@ func (w *world) apply(ev string) {
 		// with maximal-progress time every runnable goroutine runs before the clock moves
 		vm.Sleep(1e6)
 		after, _, _ := w.snapshot()
-		if isProbe && wasBlocked && res == "ok" {
+		if isProbe && wasBlocked && res == "ok" && w.inact[i] {
+			// membership of the rotation is the registry's to decide: an endpoint it lists as inactive stays out
+			if after[i].InSelector {
+				w.bad = append(w.bad, fmt.Sprintf("endpoint-the-registry-lists-as-inactive-back-in-rotation-after-its-probe\nep%d", i))
+			}
+		} else if isProbe && wasBlocked && res == "ok" {
 			if !after[i].InActive || !after[i].Status {
 				w.bad = append(w.bad, fmt.Sprintf("endpoint-not-reinstated-after-successful-probe\nep%d", i))
 			} else {
